@@ -35,7 +35,8 @@ MANIFEST = dict(
          "FTEXT/FHCRC/FEXTRA/FNAME/FCOMMENT/reserved bits (C08_gzip_framing, _stream, _roundtrip); the archive walks select the first "
          "regular non-excluded member for every placement of excluded/directory/unsupported companions (C08_member_selection, "
          "_member_unpack); RLE90 decoding inverts every well-formed token stream (C08_rle90_roundtrip); dispatch + load pipeline "
-         "(C08_dispatch_gzip, C08_pipeline_of_decrunch, C08_pipeline_partial, C08_not_packed). The model is tied to the C on every run by "
+         "(C08_dispatch_gzip, C08_pipeline_of_decrunch, C08_pipeline_partial, C08_not_packed); over the generated depacker_list all signature tests "
+         "except LHA's are pairwise exclusive, so the dispatch order matters for LHA only (C08_tests_exclusive, C08_dispatch_of_test). The model is tied to the C on every run by "
          "regenerated facts (depacker_list order and magic tests, exclude globs, sniff limits, gzip flag bits, MD5 step table, BUFLEN) and by "
          "differential correspondence against the real md5.c, depacker test functions, libxmp_exclude_match, arc_unpack(RLE90) and link-time "
          "spies inside xmp_load_module. A direct oracle loads archives produced by independent encoders through the real library.",
@@ -54,7 +55,7 @@ MANIFEST = dict(
 REQUIRED = ["Xmp.Container." + n for n in (
     "C08_md5_chunking", "C08_md5_chunking_list", "C08_md5_read_loop", "C08_md5_wf", "C08_md5_spec", "C08_gzip_framing", "C08_gzip_stream",
     "C08_gzip_roundtrip", "C08_member_selection", "C08_member_unpack", "C08_rle90_roundtrip", "C08_sniff_limits",
-    "C08_dispatch_gzip", "C08_pipeline_of_decrunch", "C08_pipeline_partial", "C08_not_packed")]
+    "C08_dispatch_gzip", "C08_tests_exclusive", "C08_dispatch_of_test", "C08_pipeline_of_decrunch", "C08_pipeline_partial", "C08_not_packed")]
 
 WRAPS = ["-Wl,--wrap=libxmp_exclude_match", "-Wl,--wrap=libxmp_tinfl_decompress_mem_to_heap",
          "-Wl,--wrap=libxmp_arc_unpack", "-Wl,--wrap=hio_reopen_mem", "-Wl,--wrap=MD5Update"]
